@@ -65,6 +65,13 @@ CHECKS["C17"] = dict(
    note="Trusted: z3, symx, astropy table/unit semantics as modelled (meta copied on slicing), cos(x+pi)=-cos x for curve invariance, float pi constants as exact rationals, reals for floats.",
    technique="symbolic execution of the real Python source + z3 (LIRA with to_int, small NRA for unit scales); sat models replayed on real JokerSamples",
    ref="3/C17")
+CHECKS["C10"] = dict(
+   text="Noninterference by symbolic execution: the real TheJoker entry points (rejection, iterative, marginal; file, object, in-memory and count-based prior samples) are each called twice on one TheJoker with every nondeterminism source a separate symbol source "
+        "(sampler generator = stream + spawn counter; numpy global state; OS entropy; prior.sample without rng). On every solver-enumerated path: no draw/effect outside the generator, every stream feeding the output derives from it, every (stream, position) delivering linear draws is used once across batches and calls; "
+        "JokerPrior.sample's real body forwards rng to pm.draw; read_random_batch draws from its rng. N<=3 (quick), 2 calls.",
+   note="Trusted: generator/SeedSequence/pool contracts of symx.env (bit-level PCG64 and real process pools outside), kernel and prior.sample contract stubs inside the sampler harness.",
+   technique="symbolic execution of the real Python source with effect logging (paths enumerated by z3); candidates replayed as equal-seed twin runs on the real build",
+   ref="3/C10")
 NOT_YET = {}
 ALL = ["C%02d" % i for i in range(1, 20)]
 
